@@ -64,7 +64,9 @@ Record disagreement := {
   d_method : ident; d_recv : val Z; d_args : list (val Z); d_model : outcome; d_generated : outcome
 }.
 
-Definition sweep_fuel : nat := 200.
+(* generous: at least ten times the fuel bound of any lemma on this domain, so that a harmless variant of a loop can
+   never run out of the sweeps' own fuel (the cost of a run is the steps it takes, not the fuel it is given) *)
+Definition sweep_fuel : nat := 5000.
 Definition gen (recv : val Z) (m : ident) (args : list (val Z)) : outcome :=
   match call_at Z 0 no_ext prog sweep_fuel recv m args with
   | ROk r => ORet r
